@@ -299,7 +299,7 @@ struct Dumper {
       J.attribute("ty", tyStr(I.getType()));
       loc(I.getDebugLoc());
       if (auto *CB = dyn_cast<CallBase>(&I)) {
-        const Value *Callee = CB->getCalledOperand()->stripPointerCasts();
+        const Value *Callee = CB->getCalledOperand()->stripPointerCastsAndAliases();
         if (auto *F = dyn_cast<Function>(Callee)) {
           J.attribute("callee", F->getName());
           if (F->isIntrinsic())
@@ -621,6 +621,19 @@ struct Dumper {
               std::string TN;
               int Guard = 0;
               while (T && Guard++ < 8) {
+                if (auto *CT2 = dyn_cast<DICompositeType>(T)) {
+                  unsigned Tag = CT2->getTag();
+                  if (Tag == dwarf::DW_TAG_structure_type ||
+                      Tag == dwarf::DW_TAG_union_type ||
+                      Tag == dwarf::DW_TAG_class_type) {
+                    if (!T->getName().empty())
+                      TN = T->getName().str();
+                    else if (TN.empty())
+                      TN = "anon@" + std::to_string(fileIndex(CT2->getFile())) +
+                           ":" + std::to_string(CT2->getLine());
+                    break;
+                  }
+                }
                 if (!T->getName().empty()) {
                   TN = T->getName().str();
                   if (isa<DICompositeType>(T))
